@@ -35,6 +35,14 @@ CHECKS = {
                 text="TestStat.tla enumerates the complete case table of the five statistics over order facts (cmp(muhat,mu), cmp(muhat,0), cmp(mu,0), sign of the likelihood-ratio difference) and TLC proves that the coded program (conditional fit at mu or at 0 for q0, free fit, subtraction, clip at 0, one-sided zeroing with the operators as written) equals the definition, is non-negative and tests the right value. Scenarios from FitClosed.tla (counts above/at/below the hypothesis, zero counts, zero and negative POI lower bound) are run through the real statistics and compared with the exact closed-form value; every call (closed-form models and a nuisance model) is recorded (driver-side ts.call/ts.return around the H4 fit records) and TLC decides on the observed floats, in the order lane, that the first fit fixed the POI at mu (0 for q0), the second left it free, the result is EXACTLY Stat(kind, muhat, mu, fun1-fun2), and the returned parameters are those of the two fits.",
                 note="closed-form value comparison is skipped within 1e-3 of muhat=mu (branch decided by fit noise; the trace check decides it exactly on the observed values); tilde variants exercised with lower bound 0, non-tilde with lower bound -5",
                 technique="TLA+ case-table refinement (TLC) + closed-form replay + TLC trace validation in the order lane"),
+    "C08": dict(engine="hypotest", design="4/C08",
+                text="Hypotest.tla issues the calls of a hypothesis test one at a time (HypotestDefs.Plan: which POI treatment, which dataset) for all 16 flag sets x {q, qtilde, q0} x {asymptotics, toybased} x prerequisite faults; TLC checks AsimovFromBkgFit, StatisticsOnRightDataset, ToyProtocol, RefusedWithoutFits and the layout facts. Every case is executed on the real hypotest: refusals (UnspecifiedPOI / InvalidModel), identity of each returned entry with the calculator's own CLs+b, CLb, CLs, expected values, and the complete hook trace (every fit with its dataset) is validated by TLC against the plan in the order lane - the Asimov dataset must be exactly Model.expected_data of the recorded background-only (signal for q0) conditional fit, toy datasets exactly make_pdf(conditional fit of the respective hypothesis).sample re-generated under the same seed. On the closed-form families of FitClosed.tla the observed CLs/p0 and the median expected CLs are compared with the analytic asymptotic values.",
+                note="analytic comparison rtol 1e-4 (fit tolerance); band values beyond the median are left to C07; toy reproduction assumes numpy's global generator is consumed only by the two sample() calls",
+                technique="TLA+ protocol machine (TLC) + TLC trace validation of every fit of every hypotest + closed-form replay"),
+    "C18": dict(engine="xmlio", design="4/C18",
+                text="XmlIO.tla defines export and import conversions (relative/absolute uncertainties, Lumi/LumiRelErr, NormFactor Val/Low/High, Const names with ROOT prefixes) twice: as the definition demands (RoundTripDef: Import(Export(w)) has the same likelihood terms, POI and constant flags) and as the code does it; MC_XmlIO.tla enumerates a family of exportable workspaces (all modifier types, lumi != 1, fixed parameters, two measurements) and all export/import/clear histories over 2 directories x 2 workspace versions (ImportReadsCurrentFile). Every case and history is replayed on the real file system through writexml/readxml the way json2xml/xml2json call them; the re-imported workspace is compared field by field with the definition and its model's logpdf with the original's at several points assembled by name.",
+                note="ROOT histograms are TH1D (doubles): tolerance 1e-9 relative; fixed bin-wise parameters are outside the exportable family (re-import raises 'confusing rootname', noted as candidate in DESIGN); built by a sub-agent under my review",
+                technique="TLA+ conversion layer (definition vs implementation) + history machine (TLC) + replay on the file system"),
     "C11": dict(engine="backend", design="4/C11",
                 text="Backend.tla models the global backend state and the weak-reference callback registry; set_backend is three separate steps (swap, fire, setup). TLC explores all interleavings of object creation, deletion and switches over 4 backends x 2 precisions x 2 optimisers x default flag with <=3 objects and checks StaleFree, DeadNeverCalled, EventIffChanged, AllLiveCalled, NoDeadAfterFire and the action property DefaultUntouchedUnlessAsked. Binding A: TLC -simulate behaviours over 8 object kinds are stepped through one long-lived pyhf process; after every step the global state and the raw registry length are compared with the specification's post-state and every live model/interpolator/viewer is compared bit-exactly with a fresh one (tensor type too), fits at the end. Binding B: hooks H1/H2 record swap/trigger/call/flush/subscribe events of the same executions and TLC validates every trace against TraceBackend.tla (inferring the unlogged deaths from the logged liveness bits).",
                 note="trusted: gc.collect() kills dropped objects; object kinds of the replay are representative; jit caches of opt_jax are exercised only through the fits at the end of behaviours",
@@ -87,6 +95,10 @@ def build():
              "serves_properties": ["C05"], "kind_free_text": "fit protocol state machine, exact closed-form optima, TLC trace validation of H4 hook records"},
             {"name": "teststat", "path": "spec/TestStat.tla spec/TraceTestStat.tla spec/FitClosed.tla harness/checks/c06.py harness/teststat_replay.py",
              "serves_properties": ["C06"], "kind_free_text": "test-statistic case table, closed-form scenarios, trace validation of wiring and exact value"},
+            {"name": "hypotest", "path": "spec/HypotestDefs.tla spec/Hypotest.tla spec/TraceHypotest.tla spec/FitClosed.tla harness/checks/c08.py harness/hypotest_replay.py",
+             "serves_properties": ["C08"], "kind_free_text": "hypothesis-test protocol machine, trace validation of every fit against the plan, closed-form CLs"},
+            {"name": "xmlio", "path": "spec/XmlIO.tla spec/MC_XmlIO.tla harness/checks/c18.py harness/xmlio_replay.py",
+             "serves_properties": ["C18"], "kind_free_text": "XML/ROOT conversion and file-cache history specification replayed on the file system"},
             {"name": "backend", "path": "spec/Backend.tla spec/MC_Backend.tla spec/TraceBackend.tla harness/checks/c11.py harness/backend_replay.py harness/tracecheck.py",
              "serves_properties": ["C11"], "kind_free_text": "backend/event-registry state machine, simulated behaviours replayed, hook traces validated by TLC"},
             {"name": "hfvalidity", "path": "spec/MC_HFValidity.tla harness/checks/c20.py harness/validity.py",
